@@ -416,6 +416,220 @@ theorem goodv_div (hasym : Asymm lt) (l r : Ast) (a b v : Val) (ha : GoodV lt l 
     subst h
     exact ⟨vok_of_novars _ _ rfl, built_div lt hasym x y c ha.2 hb.2 hm⟩
 
+/-! ### calls: `P(…)`, `PP[π](…)`, `Sum[…](…)`, `Q[…](…)`, `One()`, `Zero()` -/
+
+/-- `P(…)`, `P[…](…)`, `PP[π](…)`, `PP[π][…](…)`: arguments canonical with pairwise distinct names, the `[…]` subscripts
+with pairwise distinct names (they may repeat subscripts the variables already carry: `intervene` checks for overlap) -/
+theorem built_probSafe_gen (pop : Option Var) (ivs : Option Val) (args : List Val) (v : Val)
+    (hcanon : ∀ w ∈ argVars args, canonVar w = true) (hnod : ((argVars args).map Var.name).Nodup)
+    (hpop : canonPop pop = true) (hivs : ∀ h, ivs = some h → ((valVars h).map Var.name).Nodup)
+    (h : probSafe pop ivs args = .ok v) : ∃ e, v = .expr e ∧ built lt e = true := by
+  unfold probSafe at h
+  cases hd : distSafe args with
+  | error err => simp [hd, bind, Except.bind] at h
+  | ok cp =>
+    obtain ⟨c, p⟩ := cp
+    have hok := distOk_distSafe (fun v => canonVar v = true) args c p hcanon hnod hd
+    cases ivs with
+    | none =>
+      simp only [hd, bind, Except.bind, pure, Except.pure, Except.ok.injEq] at h
+      subst h
+      exact ⟨_, rfl, built_prob_of_distOk lt pop hok hpop⟩
+    | some hv =>
+      simp only [hd, bind, Except.bind] at h
+      cases hh : hintVars hv with
+      | error e => simp [hh] at h
+      | ok is =>
+        have his : (is.map Var.name).Nodup := by rw [hintVars_eq hh]; exact hivs hv rfl
+        cases hdi : distIntervene c p is with
+        | error e => simp [hh, hdi] at h
+        | ok d =>
+          obtain ⟨c', p'⟩ := d
+          simp only [hh, hdi, pure, Except.pure, Except.ok.injEq] at h
+          subst h
+          obtain ⟨g1, g2, g3, g4⟩ := hok
+          obtain ⟨h1, h2, h3, h4⟩ := distIntervene_ok c p is c' p' g4 his hdi
+          exact ⟨_, rfl, built_prob_of_distOk lt pop ⟨h1, incBy_of_names_eq h2 g2, incBy_of_names_eq h3 g3, h4⟩ hpop⟩
+
+/-- `Sum[rs](e)` with canonical ranges: `Sum.safe` itself rejects ranges that are not plain variables -/
+theorem built_sumSafe_canon (e c : Expr) (rs : List Var) (he : built lt e = true) (hinc : incBy Var.name rs = true)
+    (hcanon : ∀ r ∈ rs, canonVar r = true) (hc : sumSafe e rs = .ok c) : built lt c = true := by
+  by_cases hflag : rs.any (fun r => r.isIv || !r.ivs.isEmpty) = true
+  · unfold sumSafe at hc
+    rw [upgradeOrdering_fix hinc] at hc
+    by_cases hemp : rs.isEmpty = true
+    · simp only [hemp, if_true, Except.ok.injEq] at hc; subst hc; exact he
+    · have hemp' : rs.isEmpty = false := by simpa using hemp
+      simp only [hemp', Bool.false_eq_true, if_false] at hc
+      by_cases hz : isZero e = true
+      · simp only [hz, if_true, Except.ok.injEq] at hc; subst hc; exact he
+      · have hz' : isZero e = false := by simpa using hz
+        simp [hz', hflag] at hc
+  · have hflag' : rs.any (fun r => r.isIv || !r.ivs.isEmpty) = false := by simpa using hflag
+    rw [List.any_eq_false] at hflag'
+    have hplain : rs.all plainVar = true := by
+      rw [List.all_eq_true]
+      intro r hr
+      have h1 := hflag' r hr
+      have h2 := hcanon r hr
+      simp only [Bool.or_eq_true, Bool.not_eq_true', not_or, Bool.not_eq_true, Bool.not_eq_false] at h1
+      unfold canonVar at h2
+      simp only [h1.2, if_true, Bool.and_eq_true, beq_iff_eq, h1.1] at h2
+      unfold plainVar
+      have : r.star.isSome = false := h2.2.symm
+      cases hs : r.star with
+      | none => simp [h1.1, h1.2]
+      | some b => rw [hs] at this; cases this
+    exact built_sumSafe lt e c rs he hinc hplain hc
+
+theorem qSafe_ok_parts {cod : Val} {args : List Val} {v : Val} (h : qSafe cod args = .ok v) (hk : ∀ x ∈ args, KOk lt x) :
+    (∃ cs, hintVars cod = .ok cs) ∧ argVars args ≠ [] ∧ ∃ e, v = .expr e := by
+  cases args with
+  | nil => simp [qSafe] at h
+  | cons a rest =>
+    cases a with
+    | var w =>
+      simp only [qSafe] at h
+      cases hm : rest.mapM asVar with
+      | error err => simp [hm, bind, Except.bind] at h
+      | ok rs =>
+        cases hh : hintVars cod with
+        | error err => simp [hm, hh, bind, Except.bind] at h
+        | ok cs =>
+          simp only [hm, hh, bind, Except.bind, pure, Except.pure, Except.ok.injEq] at h
+          exact ⟨⟨cs, rfl⟩, by simp [argVars, valVars], ⟨_, h.symm⟩⟩
+    | tuple xs =>
+      simp only [qSafe] at h
+      split at h
+      · cases h
+      · rename_i hr
+        have hrest : rest = [] := by simpa using hr
+        subst hrest
+        cases hm : xs.mapM asVar with
+        | error err => simp [hm, bind, Except.bind] at h
+        | ok ds =>
+          cases hh : hintVars cod with
+          | error err => simp [hm, hh, bind, Except.bind] at h
+          | ok cs =>
+            simp only [hm, hh, bind, Except.bind, pure, Except.pure, Except.ok.injEq] at h
+            refine ⟨⟨cs, rfl⟩, ?_, ⟨_, h.symm⟩⟩
+            have hxs := mapM_asVar_ok xs ds hm
+            have hne : xs ≠ [] := hk (.tuple xs) (by simp)
+            have hav : argVars [Val.tuple xs] = ds := by
+              simp [argVars, valVars, hxs]
+            rw [hav]
+            intro h0
+            subst h0
+            exact hne (by simpa using hxs)
+    | dist _ _ => simp [qSafe] at h
+    | expr _ => simp [qSafe] at h
+    | pBuilder _ _ => simp [qSafe] at h
+    | ppClass => simp [qSafe] at h
+    | sumClass => simp [qSafe] at h
+    | sumPartial _ => simp [qSafe] at h
+    | qClass => simp [qSafe] at h
+    | qPartial _ => simp [qSafe] at h
+    | oneClass => simp [qSafe] at h
+    | zeroClass => simp [qSafe] at h
+
+/-- `f(args…)` -/
+theorem good_call (f : Ast) (args : List Ast) (fv : Val) (as : List Val) (v : Val) (hf : KOk lt fv) (hl : LOk lt args as)
+    (hn : (namesL args).Nodup) (h : callVal fv as = .ok v) : GoodV lt (.call f args) v := by
+  obtain ⟨hcanon, hnod0, hsubn, hks, hlen⟩ := hl
+  have hnod := hnod0 hn
+  cases fv with
+  | pBuilder pop ivs =>
+    simp only [callVal] at h
+    obtain ⟨e, rfl, hb⟩ := built_probSafe_gen lt pop ivs as v hcanon hnod hf.1 hf.2 h
+    exact ⟨vok_of_novars _ _ rfl, hb⟩
+  | ppClass =>
+    simp only [callVal] at h
+    split at h
+    · rename_i w
+      cases h
+      refine ⟨vok_of_novars _ _ rfl, ?_, fun h e => by cases e⟩
+      exact hcanon w (by simp [argVars, valVars])
+    · cases h
+    · cases h
+  | sumPartial rs =>
+    simp only [callVal] at h
+    split at h
+    · rename_i e
+      cases hs : sumSafe e rs with
+      | error err => simp [hs, bind, Except.bind] at h
+      | ok c =>
+        simp only [hs, bind, Except.bind, pure, Except.pure, Except.ok.injEq] at h
+        subst h
+        have he : built lt e = true := hks (.expr e) (by simp)
+        exact ⟨vok_of_novars _ _ rfl, built_sumSafe_canon lt e c rs he hf.1 hf.2 hs⟩
+    · cases h
+    · cases h
+  | qPartial cod =>
+    simp only [callVal] at h
+    obtain ⟨⟨cs, hcs⟩, hane, e, rfl⟩ := qSafe_ok_parts lt h hks
+    obtain ⟨g1, g2, g3⟩ := hf cs hcs
+    exact ⟨vok_of_novars _ _ rfl, built_qSafe lt cod as cs e hcs g1 g2 g3 hcanon hnod hane h⟩
+  | oneClass =>
+    simp only [callVal] at h
+    split at h
+    · cases h; exact ⟨vok_of_novars _ _ rfl, rfl⟩
+    · cases h
+  | zeroClass =>
+    simp only [callVal] at h
+    split at h
+    · cases h; exact ⟨vok_of_novars _ _ rfl, rfl⟩
+    · cases h
+  | sumClass => simp [callVal] at h
+  | qClass => simp [callVal] at h
+  | var _ => simp [callVal] at h
+  | dist _ _ => simp [callVal] at h
+  | expr _ => simp [callVal] at h
+  | tuple _ => simp [callVal] at h
+
+/-- `f[i]` -/
+theorem good_subscript (f i : Ast) (fv iv v : Val) (hf : KOk lt fv) (hi : GoodV lt i iv)
+    (h : subscript fv iv = .ok v) : GoodV lt (.sub f i) v := by
+  obtain ⟨⟨hci, hni, hsi⟩, hki⟩ := hi
+  cases fv with
+  | pBuilder pop ivs =>
+    cases ivs with
+    | none =>
+      simp only [subscript, Except.ok.injEq] at h
+      subst h
+      exact ⟨vok_of_novars _ _ rfl, hf.1, fun h e => by cases e; exact hni⟩
+    | some _ => simp [subscript] at h
+  | ppClass =>
+    simp only [subscript] at h
+    split at h
+    · rename_i w
+      cases h
+      exact ⟨vok_of_novars _ _ rfl, hci w (by simp [valVars]), fun h e => by cases e⟩
+    · cases h
+  | sumClass =>
+    simp only [subscript, bind, Except.bind] at h
+    cases hh : hintVars iv with
+    | error e => simp [hh] at h
+    | ok is =>
+      simp only [hh, pure, Except.pure, Except.ok.injEq] at h
+      subst h
+      have his := hintVars_eq hh
+      obtain ⟨hupI, hupM⟩ := incBy_upgradeOrdering is (by rw [his]; exact hni)
+      exact ⟨vok_of_novars _ _ rfl, hupI, fun r hr => hci r (by rw [← his]; exact (hupM r).mp hr)⟩
+  | qClass =>
+    simp only [subscript, Except.ok.injEq] at h
+    subst h
+    refine ⟨vok_of_novars _ _ rfl, fun cs hcs => ⟨hintVars_ne hcs hki, ?_, ?_⟩⟩
+    · rw [hintVars_eq hcs]; exact hni
+    · rw [hintVars_eq hcs]; exact hci
+  | sumPartial _ => simp [subscript] at h
+  | qPartial _ => simp [subscript] at h
+  | oneClass => simp [subscript] at h
+  | zeroClass => simp [subscript] at h
+  | var _ => simp [subscript] at h
+  | dist _ _ => simp [subscript] at h
+  | expr _ => simp [subscript] at h
+  | tuple _ => simp [subscript] at h
+
 end
 
 end PyEval
